@@ -155,7 +155,7 @@ def analyse_kernel(job):
                                             if p.term.kind == "trap" and z3.is_bv_value(p.term.trap))) for be in L}
         # ---- translator validation
         for be in build.BACKENDS:
-            runs, bad = tv.validate_paths(L[be], kidx, traps, side, max_paths=6 if tier == "quick" else 10)
+            runs, bad = tv.validate_paths(L[be], kidx, traps, side, max_paths=4 if tier == "quick" else 10)
             res["validation"].append({"backend": be, "runs": runs, "mismatches": bad})
     except Unsupported as e:
         res["status"] = "unsupported"
@@ -272,6 +272,8 @@ def is_crash(obs):
 def run_check(tier):
     t0 = time.time()
     common.ensure_dirs()
+    import shutil
+    shutil.rmtree(os.path.join(common.WORK, "x64", "smt2", "c02"), ignore_errors=True)   # dumps of this run only
     build.toolchain()
     traps = build.trap_kinds()
     layout = build.tld_layout()
